@@ -61,4 +61,38 @@ theorem C13_skip_frame (p : Pool) (t u : Nat) (o : Outcome) (hu : u ≠ t) :
 example : ((pass (cancelTask (submit (submit { maxSize := 1 } [.ret 5] 0).1 [.ret 6] 0).1 0)).map
     (fun p => (p.started, p.results))) = some ([1], [(1, .ok 6), (0, .err "The task was cancelled")]) := by decide
 
+theorem tryGrow_results_waits (p : Pool) : (tryGrow p).results = p.results ∧ (tryGrow p).waits = p.waits ∧ (tryGrow p).started = p.started := by
+  unfold tryGrow; split
+  · exact ⟨rfl, rfl, rfl⟩
+  · split <;> exact ⟨rfl, rfl, rfl⟩
+
+/-- A cancel that finds the task suspended inside its worker: at that worker's next turn the
+scheduler drops it, and the task it was in the middle of is settled then — the result "cancelled" is
+stored, the waiter registration is removed (it is woken), nothing new is started by the drop itself,
+and the worker's slot is given back. -/
+theorem C13_parked_cancel_settles (p : Pool) (w t : Nat) (x : Worker) (hx : p.workers[w]? = some x)
+    (hal : x.alive = true) (ht : x.task = some t) (hnw : p.noWaits.contains t = false) :
+    (t, Outcome.err "The task was cancelled") ∈ (dropParked p w).results ∧ t ∉ (dropParked p w).waits ∧
+    (dropParked p w).started = p.started := by
+  unfold dropParked
+  simp only [hx, hal, ht, Bool.not_true, Bool.false_eq_true, if_false]
+  rw [(tryGrow_results_waits _).1, (tryGrow_results_waits _).2.1, (tryGrow_results_waits _).2.2]
+  unfold finish
+  simp only [setWorker, hnw, Bool.false_eq_true, if_false]
+  simp [setResult]
+
+/-- …and when nobody wants the task's result (a dropped join handle) nothing is stored for it. -/
+theorem C13_parked_cancel_unwanted (p : Pool) (w t : Nat) (x : Worker) (hx : p.workers[w]? = some x)
+    (hal : x.alive = true) (ht : x.task = some t) (hnw : p.noWaits.contains t = true) :
+    (dropParked p w).results = p.results ∧ t ∉ (dropParked p w).noWaits := by
+  have hnwq : ∀ q : Pool, (tryGrow q).noWaits = q.noWaits := by
+    intro q; unfold tryGrow; split
+    · rfl
+    · split <;> rfl
+  unfold dropParked
+  simp only [hx, hal, ht, Bool.not_true, Bool.false_eq_true, if_false]
+  refine ⟨?_, ?_⟩
+  · rw [(tryGrow_results_waits _).1]; unfold finish; simp only [setWorker, hnw, if_true]
+  · rw [hnwq]; unfold finish; simp only [setWorker, hnw, if_true]; simp
+
 end Oc.Props.C13
